@@ -51,6 +51,13 @@ func (s *FuzzServiceStub) ImportBlock(block types.Block) (types.StateRoot, error
 		defer cs.TrimUnfinalizedBlocksForFuzz()
 	}
 
+	// Head of the in-memory chain before this import touches anything. If the
+	// STF rejects the block, the node is rolled back to it.
+	var (
+		prevHead    types.HeaderHash
+		hasPrevHead bool
+	)
+
 	blocks := cs.GetBlocks()
 	if len(blocks) > 0 {
 		latestBlock := cs.GetLatestBlock()
@@ -59,6 +66,7 @@ func (s *FuzzServiceStub) ImportBlock(block types.Block) (types.StateRoot, error
 		if err != nil {
 			return types.StateRoot{}, fmt.Errorf("error computing latest block hash: %w", err)
 		}
+		prevHead, hasPrevHead = latestBlockHash, true
 
 		ancestry := cs.GetAncestry()
 		var latestAncestry types.AncestryItem
@@ -113,6 +121,18 @@ func (s *FuzzServiceStub) ImportBlock(block types.Block) (types.StateRoot, error
 		// The returned state root is discarded by the server (it replies with
 		// an ErrorMessage), so there is no need to compute the prior root here.
 		logger.Errorf("%s [PROTOCOL] block invalid: %v", ctx, err)
+
+		// A rejected block must leave no trace: it was appended to the block
+		// list above (and the list may have been cut back to its parent), and
+		// the STF components have already written into the working prior and
+		// posterior states. Drop the block and reload the state of the head the
+		// node had before this call, so that a retry, a sibling or a child is
+		// processed exactly as on a node that never saw this block.
+		if hasPrevHead {
+			if rerr := cs.RestoreBlockAndState(prevHead); rerr != nil {
+				logger.Errorf("%s failed to roll back to 0x%x... after rejected block: %v", ctx, prevHead[:8], rerr)
+			}
+		}
 		return types.StateRoot{}, err
 	}
 
